@@ -72,6 +72,10 @@ func checkForwarders(r *core.Result, prog *core.Program, pk *packages.Package, r
 		r.Ob(rule, name+" consists of the runtime dispatch only", prog.Pos(f.Pos()), len(stray) == 0,
 			"statements outside the switch over MsgType can produce a result the owning runtime did not: "+strings.Join(stray, "; "))
 
+		if name == "MarshalText" {
+			nt := checkErrorTests(r, prog, info, rule, name, f.Decl.Body)
+			r.Floor("error tests in MarshalText", nt, 1)
+		}
 		// (2)-(4) per arm
 		for _, cname := range []string{"MessageTypeGogo", "MessageTypeGoogleV1", "MessageTypeGoogle"} {
 			fam := familyOfConst[cname]
@@ -200,11 +204,13 @@ func forwardPreambleOK(info *types.Info, name string, st ast.Stmt, msgVars map[t
 				}
 			}
 		}
-		// MarshalText: the documented encoding.TextMarshaler probe
-		if as, ok := x.Init.(*ast.AssignStmt); ok && name == "MarshalText" && len(as.Rhs) == 1 {
+		// MarshalText: the documented encoding.TextMarshaler probe, entered on success of the assertion
+		if as, ok := x.Init.(*ast.AssignStmt); ok && name == "MarshalText" && len(as.Rhs) == 1 && len(as.Lhs) == 2 {
 			if ta, ok := as.Rhs[0].(*ast.TypeAssertExpr); ok && ta.Type != nil {
 				if t := info.TypeOf(ta.Type); t != nil && t.String() == "encoding.TextMarshaler" {
-					return true
+					okID, _ := as.Lhs[1].(*ast.Ident)
+					condID, _ := x.Cond.(*ast.Ident)
+					return okID != nil && condID != nil && info.Uses[condID] == info.Defs[okID]
 				}
 			}
 		}
@@ -595,4 +601,123 @@ func returnsAnything(list []ast.Stmt) bool {
 		})
 	}
 	return found
+}
+
+// ---------------------------------------------------------------------------
+// Error discipline (shared): every test of an error variable against nil has the form `err != nil` and its branch
+// leaves with an error; every `v, ok :=` probe result is used positively. Returns the number of tests seen.
+func checkErrorTests(r *core.Result, prog *core.Program, info *types.Info, rule, fname string, body *ast.BlockStmt) int {
+	n := 0
+	errType := types.Universe.Lookup("error").Type()
+	ast.Inspect(body, func(nn ast.Node) bool {
+		is, ok := nn.(*ast.IfStmt)
+		if !ok {
+			return true
+		}
+		b, ok := is.Cond.(*ast.BinaryExpr)
+		if !ok || (b.Op != token.NEQ && b.Op != token.EQL) || !isNilIdent(b.Y) {
+			return true
+		}
+		id, ok := b.X.(*ast.Ident)
+		if !ok {
+			return true
+		}
+		if t := info.TypeOf(id); t == nil || !types.Identical(t, errType) {
+			return true
+		}
+		n++
+		okForm := b.Op == token.NEQ && returnsError(info, is.Body.List) && is.Else == nil
+		r.Ob(rule, fmt.Sprintf("%s :: `if %s` leaves with the error", fname, types.ExprString(is.Cond)), prog.Pos(is.Pos()), okForm,
+			"an error result must be tested as `err != nil` and that branch must return an error: otherwise a failure is reported as success (or a success as failure)")
+		return true
+	})
+	return n
+}
+
+// checkRangeExtensions (E4): every runtime arm of RangeExtensions enumerates the runtime's extensions, calls the
+// callback for each of them and stops at the callback's first error, which it returns.
+func checkRangeExtensions(r *core.Result, prog *core.Program, pk *packages.Package) {
+	info := pk.TypesInfo
+	f := core.FindFunc(pk, "RangeExtensions")
+	if f == nil {
+		r.Fail("anchor", "RangeExtensions", "", "function not found")
+		return
+	}
+	var cb types.Object
+	for _, fl := range f.Decl.Type.Params.List {
+		for _, nm := range fl.Names {
+			if _, isFn := info.Defs[nm].Type().Underlying().(*types.Signature); isFn {
+				cb = info.Defs[nm]
+			}
+		}
+	}
+	n := checkErrorTests(r, prog, info, "E4", "RangeExtensions", f.Decl.Body)
+	r.Floor("error tests in RangeExtensions", n, 4)
+	_, switches := findRegions(pk, []*core.FuncInfo{f})
+	if len(switches) != 1 {
+		r.Ob("E4", "RangeExtensions is a single dispatch over the message's runtime", prog.Pos(f.Pos()), false, "expected one switch over MsgType")
+		return
+	}
+	for _, cname := range []string{"MessageTypeGogo", "MessageTypeGoogleV1", "MessageTypeGoogle"} {
+		cc := switches[0].arms[cname]
+		if cc == nil {
+			continue
+		}
+		fam := familyOfConst[cname]
+		enumerates, callsCB, inLoop := false, false, false
+		var walk func(n ast.Node, loop bool)
+		walk = func(n ast.Node, loop bool) {
+			ast.Inspect(n, func(m ast.Node) bool {
+				switch x := m.(type) {
+				case *ast.RangeStmt:
+					walk(x.Body, true)
+					return false
+				case *ast.ForStmt:
+					walk(x.Body, true)
+					return false
+				case *ast.FuncLit:
+					// the visitor handed to the v2 runtime's RangeExtensions runs once per extension
+					walk(x.Body, true)
+					return false
+				case *ast.CallExpr:
+					if fn := staticCallee(info, x); fn != nil {
+						if cf, ok := calleeFamily(fn); ok && cf == fam && (fn.Name() == "ExtensionDescs" || fn.Name() == "RangeExtensions") {
+							enumerates = true
+						}
+					}
+					if id, ok := x.Fun.(*ast.Ident); ok && cb != nil && info.Uses[id] == cb {
+						callsCB = true
+						if loop {
+							inLoop = true
+						}
+					}
+				}
+				return true
+			})
+		}
+		for _, st := range cc.Body {
+			walk(st, false)
+		}
+		r.Ob("E4", "RangeExtensions :: case "+cname+" visits every extension the runtime reports", prog.Pos(cc.Pos()), enumerates && callsCB && inLoop,
+			fmt.Sprintf("enumerates through the runtime: %v; calls the callback: %v; once per extension: %v", enumerates, callsCB, inLoop))
+		// the v2 visitor keeps going exactly while the callback succeeded
+		if fam == "v2" {
+			okStop := false
+			for _, st := range cc.Body {
+				ast.Inspect(st, func(m ast.Node) bool {
+					if lit, ok := m.(*ast.FuncLit); ok {
+						for _, s2 := range lit.Body.List {
+							if ret, ok := s2.(*ast.ReturnStmt); ok && len(ret.Results) == 1 {
+								if b, ok := ret.Results[0].(*ast.BinaryExpr); ok && b.Op == token.EQL && isNilIdent(b.Y) {
+									okStop = true
+								}
+							}
+						}
+					}
+					return true
+				})
+			}
+			r.Ob("E4", "RangeExtensions :: case "+cname+" stops at the callback's first error", prog.Pos(cc.Pos()), okStop, "the visitor must return `err == nil` (continue only while the callback succeeded)")
+		}
+	}
 }
